@@ -46,3 +46,14 @@ pub fn st_bidi_class_witness(cp: u32) -> BidiClass {
     assert!(v != 255, "MODEL: character outside the Bidi witness alphabet");
     class_of(v)
 }
+
+/// S-PIPE part for Bidi: the oracle restricted to SIGMA_PIPE
+pub fn sp_bidi_class_cp(cp: u32) -> BidiClass {
+    let v = super::oracle::sig_bidi(cp);
+    assert!(v != 254, "MODEL: character outside SIGMA_PIPE (Bidi class)");
+    if v == 255 {
+        BidiClass::L
+    } else {
+        class_of(v)
+    }
+}
